@@ -4,6 +4,7 @@ mod gen_codec;
 mod gen;
 mod simsock;
 mod util;
+mod winsuite;
 mod wsuite;
 
 use std::io::{BufRead, BufReader, Write};
@@ -30,6 +31,7 @@ fn run_cases(cases: &str, out: &str, dir: &str) {
         let res = match toks[0] {
             "send" => wsuite::run_send(&toks, &dir, &mut cap),
             "recv" => wsuite::run_recv(&toks, &dir, &mut cap),
+            "win" => winsuite::run_win(&toks, &dir),
             "dec" => codec::run_dec(&toks),
             "enc" => codec::run_enc(&toks),
             "opc" => codec::run_opc(&toks),
